@@ -3,6 +3,22 @@
 import json, sys
 BASE = "cd /repo && cargo nextest run --workspace --no-fail-fast --test-threads 8 --offline || cargo test --workspace --no-fail-fast --offline"
 CHECKS = {
+ "C04": dict(cat="model_checking", eng="mdv-lat", ref="DESIGN.md §3 C04",
+   tech="exhaustive single-deviation enumeration of register files on live puppet threads + thread-count/kind shapes + busy-counter snapshot coherence, on real dumps",
+   text="One puppet thread per register file: the all-distinct base and every single deviation over 34 register dimensions (16 GPR incl. rsp, 16 XMM, mxcsr, x87 cw) x boundary values for spin threads (all 16 GPRs loaded), the ABI-preserved registers for threads blocked in futex; thread counts up to 64 in three kind mixes with 0..2 null-stack-pointer threads (must be skipped and reported); busy counter threads under the StopProcess fail point whose register, stack slot and app-memory word must agree within one step.",
+   note="Trusted: a ptrace-stopped thread does not execute. Exit-subset schedules and the syscall-order monitor belong to the interposition explorer."),
+ "C06": dict(cat="model_checking", eng="mdv-lat", ref="DESIGN.md §3 C06",
+   tech="exhaustive enumeration of in-page stack-pointer offsets x stack layouts on the real get_stack_info, plus real dumps of spin threads with chosen rsp around the 20-thread / size-limit thresholds",
+   text="get_stack_info on a real dumper with synthetic mappings: stack sizes {1,2,33 pages} x 4 below-stack layouts x page position x in-page offset (every 8th + neighbours quick, all 4096 thorough) x guard distances {1,2,255..258,300,1024 pages}; end-to-end: N in {1,2,19..24} (thorough: 64 threads with every offset 0..4095 at a list position >= 20) x limit in {none, T-1, T, T+1, 0, MAX} x crash context at a position >= 20 x sanitize; containment, start, end, byte fidelity and the shortening rules are checked per thread.",
+   note="The estimate threshold T is restated from the writer's constants (252+48N+8192N+65536)."),
+ "C07": dict(cat="model_checking", eng="mdv-lat", ref="DESIGN.md §3 C07",
+   tech="exhaustive enumeration of application-region shapes and crash-IP positions on real dumps; oracle = the target's memory read back + exact range rules",
+   text="Single regions (4 placements x alignment 0..7 x 9 lengths up to 1 MiB), duplicate / overlapping / adjacent region sets, crash instruction pointers at 12 offsets around the edges of four mappings (r-x 1 and 3 pages, --x, ---p), thread counts {1,3,24} incl. size-limited stacks of spin threads: every memory-list region must equal the target's bytes at its recorded range, every requested region and every non-empty stack must be listed, the IP window must be exactly [max(start,ip-128), min(end,ip+128)).",
+   note="Threads are parked (blocked or spinning without touching memory), so the target's memory can be read back after the dump."),
+ "C17": dict(cat="model_checking", eng="mdv-lat", ref="DESIGN.md §3 C17",
+   tech="exhaustive enumeration of (alignment, length, placement, tail kind) for the three read strategies and a fresh auto-probing reader against an address-derived pattern",
+   text="Start alignment 0..7 x length 1..700 + boundary powers (thorough: every length 1..4112 + powers to 64 KiB) x {region start, interior, ending exactly at the region end, crossing the end by 1..8} x tail {unmapped, PROT_NONE}, for process_vm_readv, /proc/pid/mem, PTRACE_PEEKDATA on an attached puppet and MemReader::new: readable ranges must come back complete and exact, crossing ranges may fail or return a strict exact prefix.",
+   note="The PROT_NONE tail page's true content is zero (never written)."),
  "C01": dict(cat="model_checking", eng="mdv-lat", ref="DESIGN.md §3 C01",
    tech="exhaustive option-tuple enumeration (full product at N=3, <=2 deviations elsewhere) x target shapes on real dumps of a puppet process, judged by an independent strict minidump parser with interval non-overlap sweep",
    text="Every tuple of the 7 writer-option dimensions (1296) on a 3-thread puppet and every tuple with <=2 deviations on 20+ further shapes (N up to 64, four named/unnamed mixes via real non-UTF-8 kernel names, mapped ELF / non-ELF files, extra descriptors) is dumped for real; each image must satisfy the strict parser (exact stream sizes, one stream per type, every RVA in bounds with its self-declared length) and the pairwise non-overlap sweep with only the two intended identical-blob exceptions.",
